@@ -23,7 +23,7 @@ TRIGGERS = {
 }
 PRIOS = [Priority.NOW, Priority.CREW, Priority.DOING, Priority.TODO]
 EVENTS = ['COMPLETE oldest', 'COMPLETE newest', 'TICK', 'TICK new-data', 'SUBMIT now', 'SUBMIT crew', 'SUBMIT doing', 'SUBMIT todo', 'SUBMIT todo git-fails',
-          'RESET', 'WORK queue', 'WORK doing', 'FOREIGN', 'SETTLE', 'WORK busy', 'SUBMIT-API todo', 'SUBMIT-API crew', 'VERIFY ok', 'VERIFY fail']
+          'RESET', 'WORK queue', 'WORK doing', 'FOREIGN', 'SETTLE', 'WORK busy', 'SUBMIT-API todo', 'SUBMIT-API crew', 'VERIFY ok', 'VERIFY fail', 'SUBMIT-API todo late-git-failure']
 
 
 def cond(p, level):
@@ -118,13 +118,19 @@ def hist_body(prop, start, k, sel):
                 rt.require(req.finished, 'c10:request-not-answered', 'submit request left without an answer')
             elif name.startswith('SUBMIT-API'):
                 p = {'crew': Priority.CREW, 'todo': Priority.TODO}[name.split()[1]]
+                late = name.endswith('late-git-failure')
                 rt.note(name)
                 prio_before = f.priority
-                _r, req = w.submit_api(p.value, True)
+                _r, req = w.submit_api(p.value, ok=not late, fail_late=late)
                 if not active_before:
                     rt.nontrivial()
                     rt.require(f.priority == prio_before and len(w.spawned) == before[-1], 'c12:accepted-while-inactive', f'API submission accepted in {before[0]}/{before[1]}')
                     rt.require(req.finished or isinstance(_r, bytes), 'c10:request-not-answered', 'refused API submission left without an answer')
+                elif late:
+                    # its compliance run is still going, but the submission is over: answered, pipeline back at rest
+                    rt.require(req.finished and b'Submission successful' not in b''.join(req.out), 'c10:request-not-answered', 'failed API submission not answered with a failure')
+                    rt.require(f.state == 'running' and f.is_pipeline_active(), 'c10:not-at-rest', f'after a failed preparation the pipeline is {f.state}/{f.transitioning.name}')
+                    pending_api.append((None, req))
                 else:
                     pending_api.append((p, req))
             elif name.startswith('VERIFY'):
@@ -132,13 +138,21 @@ def hist_body(prop, start, k, sel):
                     return
                 rt.note(name)
                 p, req = pending_api.pop(0)
-                w.verify(name.endswith('ok'))
-                text = b''.join(req.out)
-                rt.require(req.finished, 'c10:request-not-answered', 'API submit request left without an answer')
-                if name.endswith('ok') and b'Submission successful' in text:
-                    accepted.append(p)
-                elif name.endswith('ok'):
-                    rt.fail('c12:verified-submission-refused', f'compliance succeeded but the submission was answered {text[-120:]!r}')
+                if p is None:
+                    # the compliance run of a submission that already failed ends: nothing may happen
+                    snap = w.snapshot()
+                    w.verify(name.endswith('ok'))
+                    now = w.snapshot()
+                    rt.nontrivial()
+                    rt.require(now[:-1] == snap[:-1], 'c10:dead-submission-acts', f'the compliance run of an already failed submission changed the pipeline: {snap} -> {now}')
+                else:
+                    w.verify(name.endswith('ok'))
+                    text = b''.join(req.out)
+                    rt.require(req.finished, 'c10:request-not-answered', 'API submit request left without an answer')
+                    if name.endswith('ok') and b'Submission successful' in text:
+                        accepted.append(p)
+                    elif name.endswith('ok'):
+                        rt.fail('c12:verified-submission-refused', f'compliance succeeded but the submission was answered {text[-120:]!r}')
             elif name == 'RESET':
                 rt.note(name)
                 r = api.cmd_reset(['false'])
@@ -203,7 +217,7 @@ def hist_body(prop, start, k, sel):
         while w.spawned:
             p_, req_ = pending_api.pop(0)
             w.verify(True)
-            if b'Submission successful' in b''.join(req_.out):
+            if p_ is not None and b'Submission successful' in b''.join(req_.out):
                 accepted.append(p_)
         w.set_level(frozenset())
         for _ in range(40):
